@@ -327,7 +327,8 @@ def check(ctx):
     ctx.evaluations += len(verdicts)
     for (p, o), v in zip(cs, verdicts):
         if v is not None:
-            ctx.fail('untruthful' if 'raised' not in str(v) else 'crash', {'value': p[0][:300], 'has_plurals': p[1], 'expected': p[2], 'correct': p[3], 'origin': o}, v)
+            ctx.fail('untruthful' if 'raised' not in str(v) else 'crash', {'value': p[0][:300], 'has_plurals': p[1], 'expected': p[2], 'correct': p[3], 'origin': o}, v,
+                     replay=('harness.c07', 'oracle_plurals', [p[0], p[1], p[2], p[3]]) if len(p[0]) < 2000 else None)
     ctx.samples = [{'value': p[0][:120], 'has_plurals': p[1], 'expected': p[2], 'correct': p[3], 'origin': o} for (p, o) in cs[::max(1, len(cs) // 10)]][:10]
     return common.finish(
         ctx, 'proof', build, aud, TRUSTED, ASSUME,
